@@ -153,6 +153,8 @@ pub enum Op {
     FRetain { p: Pred, fuse: usize },
     /// `entry(k)`, and if occupied `replace_entry_with` with a closure that panics (caught)
     FReplace { k: u64 },
+    /// `drain_filter` pulled to the end, its closure panicking on entering its `fuse`-th call (caught)
+    FDrainFilter { p: Pred, fuse: usize },
     Drop,
 }
 
@@ -195,6 +197,7 @@ pub fn fmt_op(mid: usize, op: &Op) -> String {
         Op::FInsert { k, v, fuse } => format!("finsert {mid} {k} {v} {fuse}"),
         Op::FRetain { p, fuse } => format!("fretain {mid} {} {fuse}", p.fmt()),
         Op::FReplace { k } => format!("freplace {mid} {k}"),
+        Op::FDrainFilter { p, fuse } => format!("fdrainfilter {mid} {} {fuse}", p.fmt()),
         Op::Drop => format!("drop {mid}"),
     }
 }
@@ -249,6 +252,7 @@ pub fn parse_op(line: &str) -> Option<Line> {
         "finsert" => Op::FInsert { k: u(2)?, v: u(3)?, fuse: z(4)? },
         "fretain" => Op::FRetain { p: Pred::parse(t.get(2)?)?, fuse: z(3)? },
         "freplace" => Op::FReplace { k: u(2)? },
+        "fdrainfilter" => Op::FDrainFilter { p: Pred::parse(t.get(2)?)?, fuse: z(3)? },
         "drop" => Op::Drop,
         _ => return None,
     };
@@ -1373,6 +1377,49 @@ impl World {
                 let was = r.remove(k).is_some();
                 if was != panic_kind.is_some() {
                     self.fail(&["C07"], format!("replace_entry_with on key {k} (present = {was}): closure {}", if was { "was not called" } else { "was called" }));
+                }
+            }
+            Op::FDrainFilter { p, fuse } => {
+                let mut calls: Vec<u64> = vec![];
+                let m = self.maps[mid].as_mut().unwrap();
+                let order: Vec<u64> = m.iter().map(|(k, _)| k.k()).collect();
+                orc.push(format!("calls={}", keys_fmt(&order)));
+                arm_fuse(*fuse as i64, CLOSURE);
+                let cr = windowed(|| {
+                    // what is yielded before the panic is dropped by the unwinding, after the iterator
+                    let mut got: Vec<(Key, Val)> = vec![];
+                    let mut it = m.drain_filter(|k, v| {
+                        calls.push(k.k());
+                        tick(CLOSURE);
+                        v.v += p.add;
+                        p.test(k.k())
+                    });
+                    while let Some(x) = it.next() {
+                        got.push(x);
+                    }
+                    drop(it);
+                    drop(got);
+                });
+                let fired = fuse_fired();
+                disarm_fuse();
+                survives = true;
+                let _ = take_cr!(cr);
+                // every element is visited exactly once (the destructor finishes the visit); the one the
+                // closure panicked on stays as it was
+                let r = self.refs[mid].as_mut().unwrap();
+                for (i, k) in order.iter().enumerate() {
+                    if i == *fuse {
+                        continue;
+                    }
+                    if let Some(e) = r.get_mut(k) {
+                        e.1 += p.add;
+                    }
+                    if p.test(*k) {
+                        r.remove(k);
+                    }
+                }
+                if calls != order || fired != (*fuse < order.len()) || fired != panic_kind.is_some() {
+                    self.fail(&["C07", "C09"], format!("drain_filter with a closure panicking at call {fuse}: f was called on {} keys, the map held {}", calls.len(), order.len()));
                 }
             }
             Op::FillProbe { .. } => unreachable!(),
